@@ -200,11 +200,25 @@ func outcomeAlts(p *Prog, h *ssa.Function, kind string, holds bool, e env, depth
 				if isNilConst(v) {
 					return true, holds
 				}
+				// returned on the branch where it was tested non-nil: a failure
+				sv := strip(v)
+				tested := map[edge]bool{}
+				for _, bf := range directFacts(h) {
+					if bf.A.Kind == "nil" && !bf.Holds && strip(bf.A.X) == sv {
+						tested[bf.E] = true
+					}
+				}
+				if len(tested) > 0 && mustPassEdges(h, blk, tested) {
+					return true, !holds
+				}
 				// a non-constant error value: treated as "may be nil or not": matches the failing outcome only
 				// when it is definitely an error (fresh error or tested non-nil)
 				if cl, _ := callOf(v); cl != nil {
 					n := calleeFullName(&cl.Call)
 					if n == "errors.New" || n == "fmt.Errorf" {
+						return true, !holds
+					}
+					if h2 := cl.Call.StaticCallee(); h2 != nil && p.InModule(h2) && alwaysFails(h2, 0) {
 						return true, !holds
 					}
 				}
@@ -222,7 +236,39 @@ func outcomeAlts(p *Prog, h *ssa.Function, kind string, holds bool, e env, depth
 		// a returned condition value: the outcome is that condition (plus the path facts)
 		condAlts := func(v ssa.Value, base []factAtom) [][]factAtom {
 			if kind != "bool" {
-				return nil
+				// `return g(...)`: the helper succeeds exactly when g does
+				cl, idx := callOf(v)
+				if cl == nil {
+					return nil
+				}
+				res := cl.Call.Signature().Results()
+				if !(idx < 0 && res.Len() == 1 || idx == res.Len()-1) {
+					return nil
+				}
+				a := Atom{Kind: "nil", X: v}
+				fa := factAtom{withEnv(a), holds}
+				out := [][]factAtom{append(append([]factAtom{}, base...), fa)}
+				if h2 := cl.Call.StaticCallee(); h2 != nil && p.InModule(h2) && h2.Blocks != nil && depth > 0 && !onStack[h2] {
+					e2 := env{}
+					for k2, v2 := range e {
+						e2[k2] = v2
+					}
+					for i, prm := range h2.Params {
+						if i < len(cl.Call.Args) {
+							e2[prm] = cl.Call.Args[i]
+						}
+					}
+					onStack[h2] = true
+					inner := outcomeAlts(p, h2, "err", holds, e2, depth-1, onStack)
+					delete(onStack, h2)
+					if len(inner) > 0 {
+						out = nil
+						for _, in := range inner {
+							out = append(out, append(append(append([]factAtom{}, base...), fa), in...))
+						}
+					}
+				}
+				return out
 			}
 			a, pos := decompose(v)
 			if a.Kind == "bool" {
@@ -303,4 +349,91 @@ func outcomeAlts(p *Prog, h *ssa.Function, kind string, holds bool, e env, depth
 		}
 	}
 	return alts
+}
+
+// alwaysFails: every return of h yields a freshly built (non-nil) error.
+func alwaysFails(h *ssa.Function, d int) bool {
+	if h.Blocks == nil || d > 2 {
+		return false
+	}
+	res := h.Signature.Results()
+	if res.Len() == 0 || res.At(res.Len()-1).Type().String() != "error" {
+		return false
+	}
+	n := 0
+	for _, r := range returnsOf(h) {
+		if len(r.Results) == 0 {
+			return false
+		}
+		v := returnedValue(r, len(r.Results)-1)
+		cl, _ := callOf(v)
+		if cl == nil {
+			return false
+		}
+		nm := calleeFullName(&cl.Call)
+		if nm == "errors.New" || nm == "fmt.Errorf" {
+			n++
+			continue
+		}
+		if h2 := cl.Call.StaticCallee(); h2 != nil && h2 != h && alwaysFails(h2, d+1) {
+			n++
+			continue
+		}
+		return false
+	}
+	return n > 0
+}
+
+// unitOf: anchor, its closures, and the module functions all of whose static callers already belong to the unit
+// (private helpers split out of the anchor). This is the code that implements the anchor's role.
+func (c *Ctx) unitOf(anchor *ssa.Function) []*ssa.Function {
+	if anchor == nil {
+		return nil
+	}
+	in := map[*ssa.Function]bool{anchor: true}
+	for _, cl := range Closures(anchor) {
+		in[cl] = true
+	}
+	for changed := true; changed; {
+		changed = false
+		for _, fn := range c.Fns {
+			if in[fn] || fn.Parent() != nil || c.opaqueHelper(fn) {
+				continue
+			}
+			sites := c.callers[fn]
+			if len(sites) == 0 {
+				continue
+			}
+			all := true
+			for _, cs := range sites {
+				if !in[cs.Fn] {
+					all = false
+				}
+			}
+			// functions referenced as values elsewhere are not private
+			if all {
+				in[fn] = true
+				for _, cl := range Closures(fn) {
+					in[cl] = true
+				}
+				changed = true
+			}
+		}
+	}
+	var out []*ssa.Function
+	for _, fn := range c.Fns {
+		if in[fn] {
+			out = append(out, fn)
+		}
+	}
+	return out
+}
+
+func (c *Ctx) inUnit(fn, anchor *ssa.Function) bool {
+	for _, g := range c.unitOf(anchor) {
+		if g == fn {
+			return true
+		}
+	}
+	return false
 }
